@@ -929,3 +929,7 @@ seed("c19-output-no-blank", "C19", ME1, '            write!( f, "{number:.prec$}
      '            write!( f, "{number:>12.prec$}", prec = precision, number = self.nodes[ i ] ).unwrap();', "io-separated")
 seed("n-c19-output-tab", "C19", ME1, '                write!( f, "{number:.prec$} ", prec = precision, number = self.vars[ i ][ var ] ).unwrap();',
      '                write!( f, "{number:.prec$}\\t", prec = precision, number = self.vars[ i ][ var ] ).unwrap();', "SILENT", "neutral: a tab is white space too")
+seed("c05-pivot-threshold-panic", "C05", TR, '            if beta == T::zero() { panic!( "Tridiagonal error: zero pivot." ); }',
+     '            if beta == T::zero() { panic!( "Tridiagonal error: zero pivot." ); }\n            if beta * beta == gamma[j] { panic!( "Tridiagonal error: degenerate pivot." ); }', "rejects-only-shapes/solve")
+seed("c04-det-guard-in-solve", "C04", BD, "        // LU decomposition\n        let mut au = self.compact.clone();",
+     '        if self.det() == T::zero() { panic!( "Banded matrix solve error: singular matrix." ); }\n        // LU decomposition\n        let mut au = self.compact.clone();', "rejects-only-shapes/solve")
